@@ -93,13 +93,25 @@ C09Parsed(p, h, E, S, line) ==
                     ws == { i \in DOMAIN tok.words : tok.words[i].s = ss.s }
                 IN JoinAll(<<
                      Chk(ws # {}, line, "C09", "span does not start at the first character of a title word"),
-                     \* independent of the recorded word bounds: a title word begins with a letter or digit
-                     Chk(IsAlnum(p.plain[sp.a + 1]), line, "C09", "span does not start at a letter or digit"),
+
                      Chk(\A i \in ws : ss.e <= tok.words[i].e, line, "C09", "span runs past the end of its word"),
                      IF Has(E, "qtok") /\ QHasWords(E)
                        THEN Chk(ss.e - ss.s <= (Last(E.qtok.words).e - E.qtok.words[1].s) + 1, line, "C05",
                                 "highlighted span longer than the typed stretch plus one")
                        ELSE NoRes >>)])
+       ELSE NoRes,
+       \* independent of the recorded word bounds and of the stored title: in the returned text itself a span begins with
+       \* a letter or digit (a title word does) and is not preceded by one (separators are never letters or digits, C15)
+       IF p.ok THEN
+         JoinAll([k \in DOMAIN p.spans |->
+           LET sp == p.spans[k] IN
+           IF sp.b <= sp.a THEN NoRes
+           ELSE JoinAll(<<
+                  Chk(IsAlnum(p.plain[sp.a + 1]), line, "C09", "span does not start at a letter or digit"),
+                  \* (a NUL in the title is a separator that is dropped from the returned text - `a NUL b` comes back as
+                  \*  `[a][b]` -, so this clause is judged on titles without NUL only)
+                  ChkIf(0 \notin SeqRange(tok.source) /\ 0 \notin SeqRange(RecOfS(S, h.id).title),
+                        sp.a = 0 \/ ~IsAlnum(p.plain[sp.a]), line, "C09", "span starts in the middle of a run of letters and digits") >>)])
        ELSE NoRes,
        IF p.ok /\ Has(E, "q")
          THEN IF QHasAlnum(E) THEN Chk(Len(p.spans) >= 1, line, "C09", "hit for a query with a letter or digit has no highlight")
